@@ -290,12 +290,20 @@ func checkCollector(c collectorCase) (collects int, full bool, v *verdict) {
 			}
 			accessed[o.Key] = true
 		case "collect":
+			held := col.HotKeys() // a reader got the report just before the collection and renders it afterwards
 			col.VerifCollect()
 			collects++
+			if v := heldOrdered(where, held); v != nil {
+				return collects, full, v
+			}
 		case "clock":
 			fakeNow += int64(o.Minutes)
 		case "evict":
+			held := col.HotKeys()
 			col.VerifEvictStale()
+			if v := heldOrdered(where, held); v != nil {
+				return collects, full, v
+			}
 		case "free":
 			counters[o.Counter].Free()
 			counters[o.Counter] = col.AllocCounter(fmt.Sprintf("backend-%d", o.Counter))
@@ -305,6 +313,17 @@ func checkCollector(c collectorCase) (collects int, full bool, v *verdict) {
 		}
 	}
 	return collects, full, nil
+}
+
+// heldOrdered: a report handed out before a collection / eviction round must still be ordered when it is read afterwards.
+func heldOrdered(where string, held []hotkey.HotKey) *verdict {
+	for i := 1; i < len(held); i++ {
+		if held[i-1].Counter.Value() < held[i].Counter.Value() {
+			return &verdict{"held-report-reordered", fmt.Sprintf("%s: a report obtained before this round reads heat %d then %d at positions %d,%d afterwards: its counters were modified in place",
+				where, held[i-1].Counter.Value(), held[i].Counter.Value(), i-1, i)}
+		}
+	}
+	return nil
 }
 
 func TestCollectorModel(t *testing.T) {
